@@ -220,7 +220,22 @@ func (q *Queue[T]) unsafeWaitWhileEmpty(ctx context.Context) error {
 	return nil
 }
 
+// waitForNew blocks until an entry is added after the current tail of
+// the queue, the queue is closed, or the context expires.
 func (q *Queue[T]) waitForNew(ctx context.Context) error {
+	q.mu.Lock()
+	tail := q.back
+	q.mu.Unlock()
+
+	return q.waitForLink(ctx, tail)
+}
+
+// waitForLink blocks until an entry has been linked after the cursor, the
+// queue is closed, or the context expires. The condition is stated in terms
+// of the caller's cursor (rather than "q.back changed"), so that an Add that
+// lands before the caller gets here is not slept through, and a Remove that
+// empties the queue is not mistaken for news.
+func (q *Queue[T]) waitForLink(ctx context.Context, cursor *entry[T]) error {
 	q.mu.Lock()
 	defer q.mu.Unlock()
 
@@ -229,8 +244,7 @@ func (q *Queue[T]) waitForNew(ctx context.Context) error {
 	go func() { <-ctx.Done(); q.nupdates.Broadcast() }()
 	defer cancel()
 
-	head := q.back
-	for head == q.back && q.back.link != q.front {
+	for cursor.link == nil {
 		if q.closed {
 			return ErrQueueClosed
 		}
@@ -363,33 +377,30 @@ func (q *Queue[T]) Producer() fun.Producer[T] {
 			q.mu.Unlock()
 		}
 
-		q.mu.Lock()
-		if next.link == q.front {
-			q.mu.Unlock()
-			return o, io.EOF
-		}
-
-		if next.link != nil {
-			next = next.link
-			q.mu.Unlock()
-		} else if next.link == nil {
+		for {
+			q.mu.Lock()
+			if next.link == q.front {
+				q.mu.Unlock()
+				return o, io.EOF
+			}
+			if next.link != nil {
+				next = next.link
+				q.mu.Unlock()
+				return next.item, nil
+			}
 			if q.closed {
 				q.mu.Unlock()
 				return o, io.EOF
 			}
-
 			q.mu.Unlock()
-			if err := q.waitForNew(ctx); err != nil {
+
+			// nothing after the cursor (yet): wait for an
+			// entry to be linked after it. If a consumer
+			// removes that entry again before we look, go
+			// around and wait again.
+			if err := q.waitForLink(ctx, next); err != nil {
 				return o, err
 			}
-
-			q.mu.Lock()
-			if next.link != q.front {
-				next = next.link
-			}
-			q.mu.Unlock()
 		}
-
-		return next.item, nil
 	}
 }
